@@ -410,7 +410,7 @@ def run(tier):
     vecs = cmsg_vectors(chk, tier)
 
     # ---- 2. transfers
-    plans = gen_plans(chk, 397 if tier == "quick" else 61, 4 if tier == "quick" else 5)
+    plans = gen_plans(chk, 199 if tier == "quick" else 61, 4 if tier == "quick" else 5)
     conns, incidents = run_stream(chk, bindir, plans)
     acc, rejected, frontier = judge_stream(chk, conns, plans)
     for r in rejected:
